@@ -68,7 +68,7 @@ def make_spec(graph):
     }
 
 
-def canon_contour(segs):
+def canon_contour(segs, directed=False):
     """Rotation- and direction-independent canonical form of a recorded straight-line contour (a
     mirrored component kept as a TrueType reference is not reversed by the decoding pen, while a
     decomposed one is: the statement speaks of the set of contours rendered)."""
@@ -76,8 +76,9 @@ def canon_contour(segs):
     if not pts:
         return ()
     rots = [tuple(pts[i:] + pts[:i]) for i in range(len(pts))]
-    rev = pts[::-1]
-    rots += [tuple(rev[i:] + rev[:i]) for i in range(len(rev))]
+    if not directed:
+        rev = pts[::-1]
+        rots += [tuple(rev[i:] + rev[:i]) for i in range(len(rev))]
     return min(rots)
 
 
@@ -85,7 +86,10 @@ def render(tt, name):
     gs = tt.getGlyphSet()
     pen = DecomposingRecordingPen(gs)
     gs[name].draw(pen)
-    return sorted(canon_contour(c) for c in R.recording_to_cycles(pen.value))
+    # CFF outlines are fully decomposed by ufo2ft itself (mirrored members reversed), so contour
+    # direction is well defined there and must not depend on the skip list
+    directed = "glyf" not in tt
+    return sorted(canon_contour(c, directed) for c in R.recording_to_cycles(pen.value))
 
 
 def components(tt, name):
